@@ -9,6 +9,11 @@ CLAIMED = {
   technique="deterministic simulation with fault injection: the real jaq binary under a ptrace OS simulator; kill-point and errno sweeps over the fault-free --in-place trace, end-state invariants",
   text="Per generated world (1-3 input files, modes, decoys, filters that succeed/fail at value k, parse errors at value k) the fault-free -i trace defines a finite fault space (kill before every counted syscall, torn writes, every errno of each call's menu, EINTR/short I/O, a mount boundary that makes cross-directory renames fail). Thorough sweeps that space completely per world, quick samples it. After every run the file system is compared with the only allowed states (original bytes / complete output of the same invocation without -i, prefix order over files, modes, no left-overs, bystanders untouched). This is enumeration of crash points and failures, which is what the property quantifies over; it is evidence over the sampled worlds, not a proof over all programs.",
   note="Trusted: kernel, libc, the ptrace tracer, and the binary's own non-in-place output as definition of 'complete output' (the statement's own definition). A killed process is modelled, not power loss."),
+ "C03": dict(
+  level="exploration", design="§3 C03", engine="simlib",
+  technique="deterministic simulation: the tree's compiler and interpreter run generated effectful stream terms against a logged, fault-injecting input stream and a simulated consumer that cancels after exactly k outputs; the recorded effect history is checked for containment in the prefix of a definitional lazy reference trace (refinement), with crash/hang isolation per case",
+  text="Seeded generation of stream terms over every stream combinator the statement names (comma, pipe, bindings, if, //, try/catch, ?, label/break, first, limit, skip, nth, isempty, any/all, foreach/reduce over finite and endless sources incl. inputs, array collection, recursive definitions, repeat, recurse, while, until, zero-step range) with observable effects in stream positions (probe markers, bombs, errors, input consumption, endless probed loops). Each term is compiled and run by the tree with two extra natives, on an input stream that ends, fails or is endless; the consumer pulls exactly k outputs for every k up to min(#outputs, 10) and then drops the stream. Oracle: effects logged when output k is delivered are contained in those the definitional left-to-right trace (an independent lazy evaluator) orders before output k; no bomb reached, bounded work per output (fuel; a worker process that overflows its stack, exhausts memory or hangs is a violation with the case as replay); dropping performs no effect. History-based search over (term, cut, input-fault) - evidence, not proof. Output-value disagreements are counted as inconclusive (C01 is not claimed).",
+  note="Trusted: the lazy reference evaluator (model/lazy.rs, ~600 lines) and the probe natives. Effects are never placed in index/key positions (evaluation order there is C01's subject)."),
  "C06": dict(
   level="exploration", design="§3 C06", engine="simos",
   technique="deterministic simulation: the real jaq binary in a simulated world with honeypot files, complete system-call history checked against an access policy; the set of filters is discovered from the tree at run time; injected faults make the time-zone database unreadable",
@@ -43,7 +48,6 @@ NA = {
 }
 
 PENDING = {
- "C03": "claimed by DESIGN.md (trace refinement over simlib + stdin stall in simos); check not yet implemented in this commit",
  "C05": "claimed by DESIGN.md for the stream-facing surface only; check not yet implemented in this commit",
  "C19": "claimed by DESIGN.md (shuttle schedules + static Send/Sync); check not yet implemented in this commit",
 }
